@@ -12,7 +12,7 @@ import (
 func init() { register("C14", runC14) }
 
 func runC14(c *Check, tier string) {
-	c.Decides = "success/caching is dominated by exit 0 (command error nil), post-execution output checks and stored outputs (no dropped error in any function on the write path, including the handlers' helpers, so a missing declared output fails); a failing pre-execution output check is on every cache-hit path; the command context carries the target's timeout and the command is created with exec.CommandContext on it; the check runner fails on command error and on expected-output mismatch and visits every check."
+	c.Decides = "success/caching is dominated by exit 0 (command error nil), post-execution output checks and stored outputs (no dropped error in any function on the write path, including the handlers' helpers, so a missing declared output fails); a failing pre-execution output check is on every cache-hit path; the command context carries the target's timeout and the command is created with exec.CommandContext on it; the check runner fails on command error and on expected-output mismatch and visits every check; the completion reports success for a target with declared outputs only after a registry call that checks every declared output."
 	c.NotDec = "what the checked external condition is at run time, timing of the deadline, histories in which the condition changes between builds."
 	ruleR05a(c, "R14a")
 	ruleR14b(c)
